@@ -48,9 +48,9 @@ pub fn run_c20(a: &Args, shared: &SharedReport) {
     {
         let mut r = shared.lock().unwrap();
         r.rule = "every vector clock within the bound, all pairs and all triples; every dense map construction order, insert position and rewrite plan within the bound; non-trivial = the clocks involved are not all equal".into();
-        r.bounds = json!({"clocks": if th {"length <=6 components in {0,1,2} (all pairs; triples over length <=4)"} else {"length <=5 components in {0,1,2} (all pairs; triples over length <=4)"}, "dense_maps": "<=4 entries, every permutation of the pairs, every gap/duplicate, every plan of <=4 ids"});
+        r.bounds = json!({"clocks": if th {"length <=7 components in {0,1,2} (all pairs; triples over length <=5)"} else {"length <=5 components in {0,1,2} (all pairs; triples over length <=4)"}, "dense_maps": "<=9 entries: every permutation of <=5 pairs (3 orders beyond), every gap/duplicate, every plan"});
     }
-    let cs = clocks(if th { 6 } else { 5 }, 3);
+    let cs = clocks(if th { 7 } else { 5 }, 3);
     let real: Vec<VectorClock> = cs.iter().map(|v| VectorClock::from(v.clone())).collect();
     let n = cs.len();
     // pairs
@@ -137,7 +137,7 @@ pub fn run_c20(a: &Args, shared: &SharedReport) {
         }
     }
     // transitivity over all triples (length <= 3 domain)
-    let small: Vec<usize> = (0..n).filter(|i| cs[*i].len() <= 4).collect();
+    let small: Vec<usize> = (0..n).filter(|i| cs[*i].len() <= (if th { 5 } else { 4 })).collect();
     for (ii, &i) in small.iter().enumerate() {
         if (ii as u64) % a.nshards != a.shard {
             continue;
